@@ -3715,19 +3715,27 @@ where
             return Poll::Ready(event);
         }
 
+        // A `Delay` only wakes the task that polled it since it last fired, so each timer is
+        // polled again after it has been reset.
+
         // update scores
-        if let PeerScoreState::Active(peer_score) = &mut self.peer_score
-            && peer_score.decay_interval.poll_unpin(cx).is_ready()
-        {
-            peer_score.refresh_scores();
-            peer_score
-                .decay_interval
-                .reset(peer_score.params.decay_interval);
+        if let PeerScoreState::Active(peer_score) = &mut self.peer_score {
+            while peer_score.decay_interval.poll_unpin(cx).is_ready() {
+                peer_score.refresh_scores();
+                peer_score
+                    .decay_interval
+                    .reset(peer_score.params.decay_interval);
+            }
         }
 
-        if self.heartbeat.poll_unpin(cx).is_ready() {
+        while self.heartbeat.poll_unpin(cx).is_ready() {
             self.heartbeat();
             self.heartbeat.reset(self.config.heartbeat_interval());
+        }
+
+        // The heartbeat may have queued events (e.g. mesh notifications for the handlers).
+        if let Some(event) = self.events.pop_front() {
+            return Poll::Ready(event);
         }
 
         Poll::Pending
